@@ -31,5 +31,10 @@ class Dependent(MetaHandlerGenerator):
     def __hash__(self):
         return hash(self.__class__) + hash(self.name) + hash(id(self.callable))
 
+    def __repr__(self):
+        # Printed types are used as keys (structured GE): the address of the callable must not be part of them, a string
+        # annotation with an inline lambda is read anew, with a new function object, every time the type hints are resolved.
+        return f"Dependent[{self.name}]"
+
     def get_dependencies(self):
         return self.name.split(",")
